@@ -15,6 +15,9 @@ ALL schedules (`run (init n) acts` for every action list `acts`), all group size
                                 follower (any order), one of the leader, ONE monitor body of the leader
                                 (= |live| + 1 loop bodies) reach a quiescent state
 * `ha_convergence_after_election` the same when the election callbacks are still to be delivered
+* `ha_partition_heals`          (finding F17, fixed by commit 39ec43d) a follower that lost its registration through failed
+                                heartbeat bodies is numbered again by ONE heartbeat body of its own + ONE monitor body
+                                of the leader once the leader is reachable; `hbFollow_keeps_leader`
 * refutations (`…_refuted`, file `Props/C10HaRefute.lean`): what is NOT guaranteed, as concrete schedules
 -/
 namespace GoDcp.HaMembership
@@ -306,12 +309,10 @@ theorem wf_hbFollow {s : State} (h : WF s) (i : Id) : WF (hbFollow s i) := by
   split
   · exact h
   · rename_i c hc
-    have hno : ∀ t : State, WF t → WF (t.upd i fun x => { x with leader := none }) := fun t ht =>
-      ht.upd_weaken i _ (fun _ => rfl) (fun _ => rfl) (fun _ => Sublist.refl _) (fun _ => Or.inl rfl)
     split
     · exact h
     · split
-      · exact (hno s h).nf
+      · exact h
       · rename_i hcd
         have hcd' := canDial_alive (by simpa using hcd)
         have hti := h.ldTarget i c hc
@@ -319,7 +320,7 @@ theorem wf_hbFollow {s : State} (h : WF s) (i : Id) : WF (hbFollow s i) := by
         split
         · rename_i s2 hr
           exact (h1.registerAt (Ne.symm hti) hr).nf
-        · exact (hno _ h1).nf
+        · exact h1.nf
 
 theorem wf_hbPing {s : State} (h : WF s) (i : Id) : WF (hbPing s i) := by
   unfold hbPing
@@ -620,10 +621,11 @@ theorem fresh_hbFollow {s : State} {i : Id} (h : (hbFollow s i).fresh = true) : 
   · rfl
   · split at h
     · rw [if_pos (by assumption)]
-    · exfalso
+    · rw [if_neg (by assumption)]
       split at h
-      · cases h
-      · split at h <;> cases h
+      · rw [if_pos (by assumption)]
+      · exfalso
+        split at h <;> cases h
 
 theorem fresh_hbPing {s : State} {i : Id} (h : (hbPing s i).fresh = true) : hbPing s i = s := by
   unfold hbPing at h ⊢
@@ -858,8 +860,10 @@ theorem ha_quiescent_numbering (n : Nat) (acts : List Action) (L : Id)
 /-- the hypothesis of convergence: `L` alive, promoted, holding the lease; the network lets connections through;
     every heartbeat loop is between two bodies; every live instance has observed `L`; every live follower still
     has `leaderService` pointing at `L`, and EITHER its connection to `L` is gone (its next heartbeat body
-    re-registers) OR `L` holds a working entry for it.  (Both ways out of this are refuted below: a follower
-    whose `leaderService` is nil, and an instance whose elector has stopped, are never admitted again.) -/
+    re-registers - this is also the state of a follower that was partitioned from the leader: since commit 39ec43d a
+    failed re-register keeps `leaderService`, `hbFollow_keeps_leader`) OR `L` holds a working entry for it.  (What stays
+    outside: an instance whose elector has stopped, or whose `leaderService` is nil because `NewClient` failed inside
+    `OnBecomeFollower` - `Props/C10HaOrphan orphan_stays`, `Props/C10HaRefute`.) -/
 structure Recoverable (s : State) (L : Id) : Prop where
   lt : L < s.n
   alive : (s.insts L).alive = true
@@ -1045,8 +1049,7 @@ theorem hbFollow_self {t : State} (hwf : WF t) (i : Id) :
     split
     · exact ⟨Frame.refl t, rfl, rfl⟩
     · split
-      · refine ⟨?_, by simp, by simp⟩
-        apply Frame.nf; exact Frame.upd t i _ (fun _ => rfl)
+      · exact ⟨Frame.refl t, rfl, rfl⟩
       · split
         · rename_i s2 hr
           obtain ⟨rfl, -, -⟩ := registerAt_eq hr
@@ -1056,7 +1059,6 @@ theorem hbFollow_self {t : State} (hwf : WF t) (i : Id) :
           exact Frame.upd t i _ (fun _ => rfl)
         · refine ⟨?_, by simp, by simp⟩
           apply Frame.nf
-          refine Frame.upd' ?_ _ _ (fun _ => rfl)
           exact Frame.upd t i _ (fun _ => rfl)
 
 theorem hbPR_leader {u : State} {L : Id} (hnd : ((u.insts L).services.map (·.name)).Nodup)
@@ -1355,5 +1357,146 @@ theorem ha_convergence_after_election (n : Nat) (acts : List Action) (L : Id) (o
     rw [m1, a4.1] at hi
     rw [(m3 i).1, (a1 i).1] at hia
     exact (m5 i ((mem_order_iff hperm i).2 ⟨hiL, hi, hia⟩)).2
+
+/-! ### after the repair of finding F17: `leaderService` is kept, a partitioned follower comes back by itself -/
+
+/-- the follower part of the heartbeat body never drops `leaderService` any more (code after commit 39ec43d) -/
+theorem hbFollow_keeps_leader (s : State) (i : Id) (h : ((s.insts i).leader).isSome = true) :
+    (((hbFollow s i).insts i).leader).isSome = true := by
+  unfold hbFollow
+  simp only
+  split
+  · exact h
+  · split
+    · exact h
+    · split
+      · exact h
+      · split
+        · rename_i s2 hr
+          obtain ⟨rfl, -, -⟩ := registerAt_eq hr
+          simp only [nf_insts, upd_insts, if_true]
+          split <;> rfl
+        · simp
+
+/-- with distinct names `Add` REPLACES the entry of the same name -/
+theorem of_mem_addSvc_nodup {v w : Svc} {l : List Svc} (hn : (l.map (·.name)).Nodup) (hw : w ∈ addSvc v l) :
+    w = v ∨ (w ∈ l ∧ w.name ≠ v.name) := by
+  induction l with
+  | nil => simp only [addSvc, mem_singleton] at hw; exact Or.inl hw
+  | cons x r ih =>
+    rw [map_cons, nodup_cons] at hn
+    simp only [addSvc] at hw
+    split at hw
+    · rename_i hx
+      rcases mem_cons.1 hw with h | h
+      · exact Or.inl h
+      · refine Or.inr ⟨mem_cons_of_mem _ h, fun e => hn.1 ?_⟩
+        rw [hx, ← e]
+        exact mem_map_of_mem h
+    · rename_i hx
+      rcases mem_cons.1 hw with h | h
+      · exact Or.inr ⟨h ▸ mem_cons_self, h ▸ hx⟩
+      · rcases ih hn.2 h with h | h
+        · exact Or.inl h
+        · exact Or.inr ⟨mem_cons_of_mem _ h.1, h.2⟩
+
+/-- ONE monitor body of a leader whose entries all work, cover every live follower, and whose lease everybody observed -/
+theorem finish_mon {t : State} {L : Id} (lt : L < t.n) (ha : (t.insts L).alive = true)
+    (hl : (t.insts L).amLeader = true) (hh : t.holder = some (L, (t.insts L).jt))
+    (hall : ∀ v, v ∈ (t.insts L).services → v.conn.broken = false)
+    (hobs : ∀ i, i < t.n → (t.insts i).alive = true → (t.insts i).reported = t.holder)
+    (hreg : ∀ i, i < t.n → (t.insts i).alive = true → i ≠ L → Reg t L i) :
+    Quiescent (mon t L) L ∧ Frame t (mon t L) := by
+  have F := mon_frame t L
+  refine ⟨⟨?_, ?_, ?_, ?_, ?_, ?_, ?_⟩, F⟩
+  · rw [F.n]; exact lt
+  · rw [F.alive]; exact ha
+  · rw [F.amLeader]; exact hl
+  · rw [F.holder, F.jt]; exact hh
+  · rw [mon_eq ha hl]
+    show (decide _ && _) = true
+    rw [Bool.and_eq_true, decide_eq_true_eq, all_eq_true]
+    exact ⟨hh, fun v hv => by simp [hall v hv]⟩
+  · intro i hi hia
+    rw [F.n] at hi
+    rw [F.alive] at hia
+    rw [F.reported, F.holder]
+    exact hobs i hi hia
+  · intro i hi hia hiL
+    rw [F.n] at hi
+    rw [F.alive] at hia
+    obtain ⟨v, hv, hn, hj, hb⟩ := hreg i hi hia hiL
+    exact ⟨v, by rw [mon_services]; exact hv, hn, by rw [F.jt]; exact hj, hb⟩
+
+/-- a live follower `F` lost its registration through failed heartbeat bodies while it could not reach the leader
+    (its `leaderService` is kept, the connection under it is gone; the leader has dropped or still holds a dead entry
+    for it), the network lets connections through again, everybody else is settled -/
+structure PartitionHealed (s : State) (L F : Id) : Prop where
+  lt : L < s.n
+  alive : (s.insts L).alive = true
+  leading : (s.insts L).amLeader = true
+  holder : s.holder = some (L, (s.insts L).jt)
+  net : s.blocked = []
+  observed : ∀ i, i < s.n → (s.insts i).alive = true → (s.insts i).reported = s.holder
+  fLt : F < s.n
+  fAlive : (s.insts F).alive = true
+  fNe : F ≠ L
+  fLeader : ∃ c, (s.insts F).leader = some c ∧ c.target = L ∧ c.broken = true
+  others : ∀ i, i < s.n → (s.insts i).alive = true → i ≠ L → i ≠ F →
+    ∃ v ∈ (s.insts L).services, v.name = i ∧ v.jt = (s.insts i).jt ∧ v.conn.broken = false
+  clean : ∀ v ∈ (s.insts L).services, v.name ≠ F → v.conn.broken = false
+
+/-- **C10 `ha_partition_heals`** (finding F17, fixed): ONE heartbeat body of the follower and ONE monitor body of the
+leader - two loop bodies - make the state quiescent again: the follower is numbered one period after the network heals. -/
+theorem ha_partition_heals (n : Nat) (acts : List Action) (L F : Id)
+    (h : PartitionHealed (run (init n) acts) L F) :
+    let s := run (init n) acts
+    let bodies := [Action.hb F, Action.mon L]
+    Quiescent (run s bodies) L ∧ bodies.length = 2 ∧ liveIds (run s bodies) = liveIds s := by
+  intro s
+  dsimp only
+  have hwf : WF s := wf_run _ acts (wf_init n)
+  obtain ⟨c, hc, hct, hcb⟩ := h.fLeader
+  subst hct
+  have hLF : c.target ≠ F := Ne.symm h.fNe
+  simp only [run, step]
+  rw [hb_alive h.fAlive]
+  obtain ⟨f1, f2, -⟩ := hbPR_props (hbFollow s F) F
+  have he := hbFollow_rereg hc hcb h.alive h.fAlive h.net
+  have g1 : Frame s (hbFollow s F) := by
+    rw [he]
+    apply Frame.nf
+    refine Frame.upd' ?_ _ _ (fun _ => rfl)
+    exact Frame.upd s F _ (fun _ => rfl)
+  have g5 : ((hbFollow s F).insts c.target).services =
+      addSvc { name := F, jt := (s.insts F).jt, conn := { target := F } } (s.insts c.target).services := by
+    rw [he]; simp [hLF]; rfl
+  have F1 : Frame s (hbRemove (hbPing (hbFollow s F) F) F) := g1.trans f1
+  have hsv : ((hbRemove (hbPing (hbFollow s F) F) F).insts c.target).services =
+      addSvc { name := F, jt := (s.insts F).jt, conn := { target := F } } (s.insts c.target).services := by
+    rw [f2 _ hLF, g5]
+  obtain ⟨hq, F2⟩ := finish_mon (t := hbRemove (hbPing (hbFollow s F) F) F) (L := c.target)
+    (by rw [F1.n]; exact h.lt) ((F1.alive _).trans h.alive) ((F1.amLeader _).trans h.leading)
+    (by rw [F1.holder, F1.jt]; exact h.holder)
+    (fun v hv => by
+      rw [hsv] at hv
+      rcases of_mem_addSvc_nodup (hwf.svcNodup _) hv with rfl | ⟨hv, hne⟩
+      · rfl
+      · exact h.clean v hv hne)
+    (fun i hi hia => by
+      rw [F1.n] at hi; rw [F1.alive] at hia
+      rw [F1.reported, F1.holder]; exact h.observed i hi hia)
+    (fun i hi hia hiL => by
+      rw [F1.n] at hi; rw [F1.alive] at hia
+      by_cases hiF : i = F
+      · subst hiF
+        refine ⟨{ name := i, jt := (s.insts i).jt, conn := { target := i } }, ?_, rfl, (F1.jt i).symm, rfl⟩
+        rw [hsv]
+        exact mem_addSvc_self _ _
+      · obtain ⟨v, hv, hn, hj, hb⟩ := h.others i hi hia hiL hiF
+        refine ⟨v, ?_, hn, by rw [F1.jt]; exact hj, hb⟩
+        rw [hsv]
+        exact mem_addSvc_of_ne hv (by rw [hn]; exact hiF))
+  exact ⟨hq, rfl, (F1.trans F2).liveIds⟩
 
 end GoDcp.HaMembership
